@@ -74,9 +74,17 @@ CORE_FILES = [
     "fibertree/model/format.py", "fibertree/model/intersect.py", "fibertree/model/compute.py",
     "fibertree/codec/formats/coord_list.py", "fibertree/codec/formats/uncompressed.py",
     "fibertree/codec/formats/bitvector.py", "fibertree/codec/formats/compression_format.py",
+    "fibertree/codec/tensor_codec.py",
 ]
 
 _classes = {}
+EXTERN = {}      # classes without source in the repository (dict-like stats, the cache a caller plugs in): name -> {method: "def ..."}
+
+
+def extern_class(name, methods):
+    """Declare a class that has no source in /repo; its methods exist only through trusted contracts (file '<extern>')."""
+    EXTERN[name] = dict(methods)
+    _classes.clear()
 
 
 class ClassInfo:
@@ -116,6 +124,13 @@ def classes():
                 elif isinstance(s, ast.Assign) and len(s.targets) == 1 and isinstance(s.targets[0], ast.Name):
                     ci.attrs[s.targets[0].id] = s.value
             _classes[n.name] = ci
+    for name, methods in EXTERN.items():
+        node = ast.parse("class %s:\n%s" % (name, "".join("    %s\n        pass\n" % sig for sig in methods.values()) or "    pass\n")).body[0]
+        ci = ClassInfo(name, "<extern>", node)
+        for sdef in node.body:
+            if isinstance(sdef, ast.FunctionDef):
+                ci.methods[sdef.name] = ("<extern>", name + "." + sdef.name, sdef, [])
+        _classes[name] = ci
     return _classes
 
 
